@@ -118,7 +118,19 @@ func main() {
 		// a changed tree on which (say) every command times out would make each op wait for its context: after 25 ops that
 		// took longer than 1.9 s the rest of the scenario is skipped — the slow ops themselves already carry the verdicts
 		slow := 0
+		// VERIF_ONLY=<kind>,… restricts a scenario to the op kinds that bear on the property being checked (the `dec`
+		// scenario reads it as a list of layer names instead)
+		var onlyKinds map[string]bool
+		if o := os.Getenv("VERIF_ONLY"); o != "" && name != "dec" {
+			onlyKinds = map[string]bool{}
+			for _, k := range strings.Split(o, ",") {
+				onlyKinds[k] = true
+			}
+		}
 		g.emit = func(op Op) {
+			if onlyKinds != nil && !onlyKinds[op.Kind] {
+				return
+			}
 			if slow >= 25 && op.Kind != "conc" && op.Kind != "time" {
 				g.stat["skipped-after-25-slow-ops"]++
 				return
